@@ -35,7 +35,7 @@ import pyben
 
 from torrentfile.hasher import FileHasher
 from torrentfile.mixins import ProgMixin
-from torrentfile.utils import ArgumentError, MissingPathError
+from torrentfile.utils import ArgumentError, MissingPathError, hash_bytes
 
 SHA1 = 20
 SHA256 = 32
@@ -230,7 +230,7 @@ class Checker:
 
             if self.meta_version > 1:
                 root = self.info["file tree"][self.name][""]["pieces root"]
-                finfo[0]["pieces root"] = root
+                finfo[0]["pieces root"] = hash_bytes(root)
 
             return
 
@@ -271,7 +271,8 @@ class Checker:
                 base = os.path.join(*partials, key)
                 roothash = None
                 length = val[""]["length"]
-                roothash = None if not length else val[""]["pieces root"]
+                roothash = None if not length else hash_bytes(
+                    val[""]["pieces root"])
                 full = str(self.root / base)
                 self.fileinfo[len(self.paths)] = {
                     "path": full,
@@ -336,7 +337,7 @@ class FeedChecker(ProgMixin):
         """
         self.piece_length = checker.piece_length
         self.paths = checker.paths
-        self.pieces = checker.info["pieces"]
+        self.pieces = hash_bytes(checker.info["pieces"])
         self.fileinfo = checker.fileinfo
         self.piece_map = {}
         self.index = 0
@@ -484,7 +485,10 @@ class HashChecker(ProgMixin):
         self.paths = checker.paths
         self.piece_length = checker.piece_length
         self.fileinfo = checker.fileinfo
-        self.piece_layers = checker.meta["piece layers"]
+        self.piece_layers = {
+            hash_bytes(root): hash_bytes(layer)
+            for root, layer in checker.meta["piece layers"].items()
+        }
         self.current = None
         self.index = -1
 
